@@ -543,9 +543,11 @@ async fn exec<const N: usize>(st: &mut St<N>, ctx: &mut Ctx, toks: &[&str]) {
             ctx.emit(format!("ls {}", list_dir_as(&st.dir, &st.cfg.corrdir)));
         }
         ("close", []) => match st.storage.take() {
-            Some(s) => match s.close().await {
-                Ok(()) => ctx.emit("close ok"),
-                Err(e) => ctx.emit(format!("close Err {}", err_class(&e))),
+            // close has to return: it is given 20 s (the longest failpoint delay of the scripts is well below 1 s)
+            Some(s) => match tokio::time::timeout(Duration::from_secs(20), s.close()).await {
+                Ok(Ok(())) => ctx.emit("close ok"),
+                Ok(Err(e)) => ctx.emit(format!("close Err {}", err_class(&e))),
+                Err(_) => ctx.emit("close Timeout"),
             },
             None => ctx.emit("close NoStorage"),
         },
